@@ -115,10 +115,39 @@ def decide(outs_cc, asg):
     return [cls for ccs, cls in outs_cc if all(eval_cond(cc, asg) for cc in ccs)]
 
 
+def split_or(f, where):
+    """a clause function over several cofactor pairs that is a disjunction of per-pair functions (mismatches of
+    several words or-ed together before the test) -> the per-pair functions; otherwise [f]"""
+    if f is None or f[1] in ("xs", "os"):
+        return [f]
+    groups = {}
+    for a in f[0]:
+        groups.setdefault(where.get(a), []).append(a)
+    if None in groups or len(groups) < 2:
+        return [f]
+    parts = []
+    for k, atoms in groups.items():
+        others = [a for a in f[0] if a not in atoms]
+        g = None
+        for r in range(1 << len(others)):
+            h = B.restrict(f, {a: (r >> i) & 1 for i, a in enumerate(others)})
+            g = h if g is None else B.band(g, h)
+        parts.append(g)
+    acc = B.ZERO
+    for g in parts:
+        acc = B.bor(acc, g)
+    return parts if acc == f else [f]
+
+
 def check_entry(n, v, outs_cc, spec):
     """outs_cc: list of (list of cond clauses, class). spec: S -> class"""
     pairs = pair_atoms(n, v)
     npairs = len(pairs)
+    where0 = {}
+    for k, (x, y) in enumerate(pairs):
+        where0[x] = k
+        where0[y] = k
+    outs_cc = [([([g for f in cl for g in split_or(f, where0)], neg) for cl, neg in ccs], cls) for ccs, cls in outs_cc]
     if n <= 3:
         for values in itertools.product(PAIRS, repeat=npairs):
             asg = table_asg(n, v, values)
@@ -202,7 +231,7 @@ def check_entry(n, v, outs_cc, spec):
 def run(chk):
     facts = F.load("dbg")
     env = Env(facts)
-    nmax = 8 if chk.tier == "quick" else 10
+    nmax = 10 if chk.tier == "quick" else 12
     dt = facts.adts.get("decomposition::DecompositionType")
     if dt is None:
         chk.refuted("C06.anchor", "anchor-missing: DecompositionType", "public enum not found")
